@@ -1,14 +1,14 @@
 SPECIFICATION MCSpec
 CONSTANTS
-  NP = 2
+  NP = 1
   K = 2
   MaxSend = 1
-  MaxDup = 1
+  MaxDup = 0
   MaxRestart = 1
   Idem = 1
-  MaxOps = 8
-  MaxRetry = 0
-  Stale = FALSE
+  MaxOps = 12
+  MaxRetry = 1
+  Stale = TRUE
 CONSTRAINT Bound
 VIEW View
 INVARIANT NeverBoth
